@@ -142,6 +142,7 @@ Json::Value gen() {
   if (swtotal) w.host.swaps.push_back({swtotal, R64(0, swtotal)});
   sc["world"] = w.toJson();
   World view = w;
+  int64_t lastPswpout = -1;
   Json::Value ticks(Json::arrayValue);
   for (int t = 0; t < nticks; t++) {
     Json::Value tick(Json::objectValue);
@@ -185,8 +186,23 @@ Json::Value gen() {
         h.op = "host";
         h.host = view.host;
         if (!h.host.swaps.empty()) h.host.swaps[0].used_kb = R64(0, h.host.swaps[0].size_kb);
+        bool havePs = false;
         for (auto& kv : h.host.vmstat)
-          if (kv.first == "pswpout") kv.second += R64(0, 1 << 16);
+          if (kv.first == "pswpout") {
+            kv.second += R64(0, 1 << 16);
+            lastPswpout = kv.second;
+            havePs = true;
+          }
+        // kernels / moments without the counter: the key goes away and comes back
+        if (havePs && P(15)) {
+          std::vector<std::pair<std::string, int64_t>> keep;
+          for (auto& kv : h.host.vmstat)
+            if (kv.first != "pswpout") keep.push_back(kv);
+          h.host.vmstat = keep;
+        } else if (!havePs && lastPswpout >= 0 && P(60)) {
+          lastPswpout += R64(0, 1 << 16);
+          h.host.vmstat.push_back({"pswpout", lastPswpout});
+        }
         view.host = h.host;
         ops.append(h.toJson());
       }
@@ -237,6 +253,7 @@ Verdict run(const Json::Value& sc) {
   std::set<std::string> prevSet;
   int64_t lastReclaim = -1, lastMaybe = -1;
   int64_t prevPswpout = -1;
+  bool sawPswpoutGap = false;
   int changes = 0;
   bool last = false;
   for (int t = 0; t < nticks && v.ok; t++) {
@@ -343,12 +360,14 @@ Verdict run(const Json::Value& sc) {
       bool rate = true;
       if (a.isMember("swapout_bps_threshold")) {
         int64_t thr = atoll(a["swapout_bps_threshold"].asCString());
-        int64_t ps = w.host.vm("pswpout", 0);
-        double bps = prevPswpout < 0 ? 0.0 : (double)(ps - prevPswpout) * 4096.0 / 5.0;
+        // a rate exists only between two samples that both carry the counter
+        int64_t ps = w.host.vm("pswpout", -1);
+        double bps = (prevPswpout < 0 || ps < 0) ? 0.0 : (double)(ps - prevPswpout) * 4096.0 / 5.0;
+        if (ps < 0 || (prevPswpout < 0 && t > 0)) sawPswpoutGap = true;
         rate = bps >= (double)thr;
         if (std::fabs(bps - (double)thr) < 1.0) dontcare = true;
       }
-      prevPswpout = w.host.vm("pswpout", 0);
+      prevPswpout = w.host.vm("pswpout", -1);
       expect = low && rate;
     } else if (det == "exists") {
       bool ex = !watched.empty();
@@ -377,6 +396,7 @@ Verdict run(const Json::Value& sc) {
   if (duration > 0 && changes >= 2) v.nontrivial = true;
   if ((det == "swap_free" || det == "exists" || det == "nr_dying_descendants") && changes >= 2) v.nontrivial = true;
   v.labels.push_back(det);
+  if (sawPswpoutGap) v.labels.push_back("pswpout_key_gap");
   return v;
 }
 
